@@ -162,7 +162,7 @@ for _k, _found in {"C01": {**L0_FIELD_CORE, **L0_SCALAR}, "C02": {**L0_FIELD_COR
 # chaining through both backends against the contracts the L0 obligations prove: FL.Bounds).
 _FL_CURVE = reg("Voi.Props.FL.Curve", "Voi.Props.FL.Models", "Voi.Props.FL.Encoding")
 _FL_FIELD = reg("Voi.Props.FL.Field", "Voi.Props.FL.Sqrt")
-_FL_BOUNDS = reg("Voi.Props.FL.Bounds", "Voi.FIR.Sound", "Voi.Props.FL.Link")
+_FL_BOUNDS = reg("Voi.Props.FL.Bounds", "Voi.FIR.Sound", "Voi.Props.FL.Link", "Voi.Props.FL.Link32")
 PROPS["C14"]["theorems"] = {**PROPS["C14"]["theorems"], **reg("Voi.Props.FL.Elligator", "Voi.Props.FL.Sqrt")}
 PROPS["C14"]["gens"] = sorted(set(PROPS["C14"].get("gens") or []) | {"go2ir", "flevel"})
 PROPS["C14"]["streams"] = PROPS["C14"]["streams"] + [("T2", 3000, {"configs": ["purego", "force32bit"]})]
